@@ -298,6 +298,7 @@ func vC17History(steps int) {
 					continue
 				}
 				vAssert("C17.history.buffer-within-window", buf.nrItems() <= 3)
+				vAssert("C17.history.buffer-capacity-is-window", int(buf.size) <= 3 && len(buf.items) <= 3)
 				as := &mpd.AdaptationSetType{}
 				as.SegmentTemplate = &mpd.SegmentTemplateType{}
 				as.Representations = []*mpd.RepresentationType{{Id: name}}
